@@ -70,6 +70,7 @@ class Ctx:
         self.failure_kinds = collections.Counter()
         self.inconclusive = []
         self.unprocessed = collections.Counter()
+        self.shrink_allowance = float(spec.get("shrink_allowance_s", 60))
         self._sample_slots = spec.get("samples", 3)
         self._sample_rng = random.Random(f"samples/{self.seed}/{spec.get('shard', 0)}")
         self._sample_n = 0
@@ -104,8 +105,8 @@ class Ctx:
         }
 
 
-MAX_DETAILED_PER_KIND = 12
-SHRINK_BUDGET = 150
+MAX_DETAILED_PER_KIND = 6
+SHRINK_BUDGET = 120
 
 
 def shrink(mod, case, diag, ctx, budget=SHRINK_BUDGET):
@@ -117,14 +118,18 @@ def shrink(mod, case, diag, ctx, budget=SHRINK_BUDGET):
     kind = diag.get("kind")
     progress = True
     runs = 0
-    while progress and runs < budget:
+    # shrinking only makes replays readable; it gets a small wall-clock allowance per failure and per
+    # shard so that a broken tree on which candidates hang cannot stall the run
+    deadline = time.time() + min(8.0, max(0.0, ctx.shrink_allowance))
+    t_start = time.time()
+    while progress and runs < budget and time.time() < deadline:
         progress = False
         for cand in cands(case):
-            if runs >= budget:
+            if runs >= budget or time.time() >= deadline:
                 break
             runs += 1
             try:
-                with watchdog(ctx.spec.get("case_timeout", 30)):
+                with watchdog(max(0.2, min(2.0, deadline - time.time()))):
                     ds = mod.check(cand, None)
             except CaseTimeout:
                 continue
@@ -135,6 +140,7 @@ def shrink(mod, case, diag, ctx, budget=SHRINK_BUDGET):
                 case, diag = cand, same[0]
                 progress = True
                 break
+    ctx.shrink_allowance -= time.time() - t_start
     return case, diag
 
 
@@ -145,7 +151,11 @@ def run_shard(mod, spec: dict) -> dict:
         mod.setup(ctx)
     timeout = spec.get("case_timeout", 30)
     clean = spec.get("clean", False)
+    stop_after = spec.get("stop_after_violations", 25)
     for case in mod.gen_cases(spec, ctx):
+        if sum(1 for f in ctx.failures if f["finding"] is None) >= stop_after or len(ctx.inconclusive) >= spec.get("stop_after_inconclusive", 5):
+            ctx.count("shard_stopped_early_after_violations")
+            break
         try:
             with watchdog(timeout):
                 diags = mod.check(case, ctx)
@@ -160,7 +170,7 @@ def run_shard(mod, spec: dict) -> dict:
             finding = None if clean else mod.classify(case, diag)
             key = f"{kind}|{finding}"
             ctx.unprocessed[key] += 1
-            if ctx.unprocessed[key] > (MAX_DETAILED_PER_KIND if finding is not None else 40):
+            if ctx.unprocessed[key] > (MAX_DETAILED_PER_KIND if finding is not None else 25):
                 continue  # counted (failure_kinds / unprocessed) but not shrunk or stored
             small, sdiag = case, diag
             if spec.get("shrink", True):
